@@ -1,10 +1,10 @@
-(* NEEDS: Files/TsTok.vo Files/TsParse.vo Mem/Alloc.vo Files/TsMem.vo Files/NpdScan.vo Files/NpdLoad.vo Files/TsMemNpd.vo *)
+(* NEEDS: Files/TsTok.vo Files/TsParse.vo Mem/Alloc.vo Files/TsMem.vo Files/NpdScan.vo Files/NpdLoad.vo Files/TsMemNpd.vo Data/DataModel.vo Files/LoadFail.vo *)
 (* Extraction of the pointer-level models of the Touchstone and NPD loaders' own buffers (C09, package B).
    Only ExtrOcamlBasic's directives are in effect. *)
 Require Extraction.
 Require Import ExtrOcamlBasic.
 Require Import List NArith ZArith.
-Require Import LV.Files.TsTok LV.Files.TsParse LV.Mem.Alloc LV.Files.TsMem LV.Files.NpdScan LV.Files.NpdLoad LV.Files.TsMemNpd.
+Require Import LV.Files.TsTok LV.Files.TsParse LV.Mem.Alloc LV.Files.TsMem LV.Files.NpdScan LV.Files.NpdLoad LV.Files.TsMemNpd LV.Files.LoadFail.
 Extraction Language OCaml.
 Set Extraction KeepSingleton.
-Extraction "models_tsmem.ml" mem_load_ts mem_load_npd start live fresh fail_at.
+Extraction "models_tsmem.ml" mem_load_ts mem_load_npd start live fresh fail_at ts_digest npd_digest.
